@@ -74,6 +74,7 @@ type Op struct {
 	Head    int         `json:"h,omitempty"` // head: block index to make canonical head (-1 = genesis)
 	Queries []QuerySpec `json:"q,omitempty"` // query: run concurrently (1-2)
 	History uint64      `json:"hist,omitempty"`
+	Lag     int         `json:"lag,omitempty"` // head with queries: gates this actor passes before delivering the target
 }
 
 type Plan struct {
@@ -364,6 +365,7 @@ func Gen(r *simcore.Rand, tier string) any {
 					for k := 0; k < nq; k++ {
 						p.Ops[i].Queries = append(p.Ops[i].Queries, genQuery(r, h, hs))
 					}
+					p.Ops[i].Lag = r.Pick(1, 2, 2, 1) * r.Range(1, 8)
 				}
 			case "restart":
 				hs = p.Ops[i].History
@@ -1126,6 +1128,13 @@ func (w *world) runQuery(qid int, spec QuerySpec, phase string) {
 			if have && n < r.BlocksFirst {
 				v.Key = "query-error:lv-pointer-deleted-by-tail-unindex"
 				v.Msg += fmt.Sprintf(" (block %d is below the indexed range %d..%d now: its pointer was deleted by tail unindexing while the query ran)", n, r.BlocksFirst, r.BlocksAfterLast)
+			} else if have && n >= r.BlocksAfterLast && r.BlocksFirst == r.BlocksAfterLast {
+				// second recognised class: the head part of the index was reverted under the query
+				// (reorg) and the indexed block range is EMPTY at the moment of the lookup;
+				// GetBlockLvPointer only redirects lookups beyond the indexed range when the range
+				// is non-empty, so it reads the deleted pointer of the block itself
+				v.Key = "query-error:lv-pointer-deleted-by-head-revert-empty-range"
+				v.Msg += fmt.Sprintf(" (indexed block range is empty [%d,%d) now: the pointer of block %d was deleted when the index head was reverted while the query ran)", r.BlocksFirst, r.BlocksAfterLast, n)
 			}
 		}
 		if simcore.IsKnown(v.Key) {
@@ -1198,8 +1207,14 @@ func (w *world) runQuery(qid int, spec QuerySpec, phase string) {
 }
 
 func (w *world) runQueries(qs []QuerySpec, phase string, base int) {
+	w.startQueries(qs, phase, base)()
+}
+
+// startQueries starts the query actors and returns the function that waits for them
+// and files their observations.
+func (w *world) startQueries(qs []QuerySpec, phase string, base int) (wait func()) {
 	if len(qs) == 0 {
-		return
+		return func() {}
 	}
 	done := make(chan struct{}, len(qs))
 	for i, q := range qs {
@@ -1209,14 +1224,16 @@ func (w *world) runQueries(qs []QuerySpec, phase string, base int) {
 			w.runQuery(base+i, q, phase)
 		})
 	}
-	for range qs {
-		<-done
-	}
-	for i := range qs {
-		w.mu.Lock()
-		o := w.qobs[base+i]
-		w.mu.Unlock()
-		w.observe(o)
+	return func() {
+		for range qs {
+			<-done
+		}
+		for i := range qs {
+			w.mu.Lock()
+			o := w.qobs[base+i]
+			w.mu.Unlock()
+			w.observe(o)
+		}
 	}
 }
 
@@ -1369,18 +1386,22 @@ func Run(t *testing.T, pl any) *simcore.Result {
 						w.probe("head-moved-backwards")
 					}
 					w.observe(fmt.Sprintf("head -> %d (block %d) fork %d", nh.number, nh.idx, fork))
+					waitLag := func() {}
 					if len(op.Queries) > 0 {
 						// The node writes the canonical markers first and tells the indexer afterwards
 						// (chain event -> SetTarget): queries issued in between see the new chain while
-						// the index still follows the old one (possibly an abandoned fork).
+						// the index still follows the old one (possibly an abandoned fork). The range
+						// search of eth/filters retries until the index has caught up, so the target
+						// must arrive while the queries run: this actor passes op.Lag gates first (the
+						// label sorts first, so an exhausted tape delivers at once).
 						w.probe("queries-before-target-delivery")
 						if fork <= oldHead {
 							w.probe("queries-before-target-delivery-after-reorg")
 						}
-						w.runQueries(op.Queries, "lag", qbase)
+						waitLag = w.startQueries(op.Queries, "lag", qbase)
 						qbase += len(op.Queries)
-						if w.failed() {
-							break
+						for i := 0; i < op.Lag; i++ {
+							w.sched.Gate("a:deliver-target")
 						}
 					}
 					w.maxTarget = max(w.maxTarget, nh.number)
@@ -1388,6 +1409,7 @@ func Run(t *testing.T, pl any) *simcore.Result {
 					// quiescent point: an idle indexer picks the target up now, not in a real-time
 					// race with the next operation of this actor
 					w.sched.Gate("zz:target-set")
+					waitLag()
 				case "query":
 					if !w.drain() {
 						w.noteDisabled(where)
